@@ -107,7 +107,9 @@ def arith(op, a, ea, b, eb):
 
 EXTRA_ATOMS = {}       # per-case opaque literals (index -> value), set by the caller around a comparison
 ATOMS = {"negzero": -0.0, "subnormal": 5e-324, "tiny": 1e-300, "huge": 1e300, "mhuge": -1e300, "i62": 2 ** 62, "mi63": -2 ** 63,
-         "i63": 2 ** 63, "i64m1": 2 ** 64 - 1, "i70": 2 ** 70 + 7}
+         "i63": 2 ** 63, "i64m1": 2 ** 64 - 1, "i70": 2 ** 70 + 7,
+         "nearpi": 3.14159, "pihalf_prev": math.nextafter(math.pi / 2, 0), "fivepisixth": 5 * math.pi / 6, "pi": math.pi, "mquarterpi_near": -0.7854,
+         "third": 1 / 3, "e": math.e, "sqrt2_next": math.nextafter(math.sqrt(2), 2)}
 
 
 def eval_term(t, env=None):
